@@ -96,6 +96,21 @@ Theorem C16_async_exactly_once_in_order :
 Proof. exact async_exactly_once. Qed.
 Print Assumptions C16_async_exactly_once_in_order.
 
+(* at most once, in order, as one relation: the records handed to the file so far are an order-preserving
+   selection (each position used at most once) of the records the back-end took and of the appended
+   sequence; if the appended records are pairwise distinct none appears twice in the file *)
+Theorem C16_async_at_most_once :
+  forall (R : Type) (rlen : R -> Z) (P : params),
+  params_ok P = true -> p_fit_gt P = true ->
+  forall (progs0 : list (list R)) (s : ast R),
+  Forall (Forall (fun r => rlen r < p_cap P)) progs0 ->
+  reach R rlen P (init progs0) s ->
+  subseq (written_of (out (gh s))) (taken (gh s)) /\
+  subseq (written_of (out (gh s))) (hist (gh s)) /\
+  (NoDup (hist (gh s)) -> NoDup (written_of (out (gh s)))).
+Proof. exact written_subseq. Qed.
+Print Assumptions C16_async_at_most_once.
+
 (* records are discarded only by the valve: the buffers erased so far (+ those of the batch in work) are
    exactly `dropped_of` of the batches = buffers p_keep+1..n of a batch with more than p_thr buffers; the
    rendering of such a batch starts with the announcement on stderr and in the file carrying that number;
